@@ -152,30 +152,16 @@ def run_op(mod, objs, st):
         raise BuildError('unknown op ' + op)
 
 
-class _NoSolve(object):
-    """Stands in for the model's EquationSolver while Model.main() runs: records the block, solves nothing."""
-
-    def __init__(self):
-        self.text = None
-
-    def ParseString(self, text):
-        self.text = text
-        return ''
-
-    def SolveEquation(self):
-        return None
-
-    def GenerateCSVtext(self, format_str='%.5g'):
-        return ''
-
-
 def generate_equations(mod):
     """The equation block Model.main() hands to its solver: the REAL main() is run (its own sequence of steps and its own
-    exception handling) with the solver replaced by a recorder.  main() catches Warning (it logs it through LogInfo and
-    returns); the harness re-raises it, because the models report it as an outcome of their own (Err Warning_)."""
+    exception handling); on the model's own solver object ParseString is replaced by a recorder and SolveEquation by a
+    no-op for the duration of the call (every other attribute of the solver stays what it is, so a main() that touches
+    the solver in other ways keeps working).  main() catches Warning (it logs it through LogInfo and returns); the
+    harness re-raises it, because the models report it as an outcome of their own (Err Warning_)."""
     import contextlib
     import io
     seen = []
+    got = []
     orig_log = mod.LogInfo
 
     def log_info(*a, **kw):
@@ -183,25 +169,32 @@ def generate_equations(mod):
         if ex is not None:
             seen.append(ex)
         return orig_log(*a, **kw)
+
+    def parse_string(text, *a, **kw):
+        got.append(text)
+        return ''
+
+    def solve_equation(*a, **kw):
+        return None
     solver = mod.EquationSolver
-    mod.EquationSolver = _NoSolve()
+    solver.ParseString = parse_string
+    solver.SolveEquation = solve_equation
     mod.LogInfo = log_info
     try:
         with contextlib.redirect_stdout(io.StringIO()):
             mod.main()
-        text = mod.EquationSolver.text
     finally:
-        mod.EquationSolver = solver
-        try:
-            del mod.LogInfo
-        except AttributeError:
-            pass
+        for obj, name in ((solver, 'ParseString'), (solver, 'SolveEquation'), (mod, 'LogInfo')):
+            try:
+                delattr(obj, name)
+            except AttributeError:
+                pass
     warned = [e for e in seen if isinstance(e, Warning)]
     if warned:
         raise warned[0]
-    if text is None:
+    if not got:
         raise BuildError('Model.main() returned without handing a block to its solver')
-    return text
+    return got[-1]
 
 
 # ----------------------------------------------------------------------------------------------
